@@ -198,6 +198,62 @@ func errText(err error) string {
 	return "other: " + err.Error()
 }
 
+// runRPCFirst: many fresh connections whose Remote has no Client yet; on each one
+// several goroutines make their first call at the same moment.
+//
+//	vipsim rpcfirst <seed> <pairs> <callers> <trace> <status>
+func runRPCFirst(args []string) {
+	if len(args) != 5 {
+		fatal("usage: vipsim rpcfirst seed pairs callers trace status")
+	}
+	pairs, _ := strconv.Atoi(args[1])
+	callers, _ := strconv.Atoi(args[2])
+	statusFile = args[4]
+	tr, err := newTrace(args[3])
+	if err != nil {
+		fatal("%v", err)
+	}
+	log := &evlog{tr: tr, epoch: time.Now()}
+	for p := 0; p < pairs; p++ {
+		log.emit(J{"ev": "reset"})
+		p1, p2 := net.Pipe()
+		gates := &sync.Map{}
+		mk := func(ep string, codec jsonrpc2.Codec) *jsonrpc2.Remote {
+			svc := &EchoSvc{ep: ep, log: log, gates: gates}
+			srv := &jsonrpc2.Server{}
+			srv.RegisterMethod("t_echo", svc, "Echo")
+			r := &jsonrpc2.Remote{Codec: &traceCodec{Codec: codec, ep: ep, log: log}, Server: srv}
+			svc.self = r
+			go r.Serve()
+			return r
+		}
+		a, _ := mk("A", jsonrpc2.IOCodec(p1)), mk("B", jsonrpc2.IOCodec(p2))
+		start := make(chan struct{})
+		var wg sync.WaitGroup
+		for c := 0; c < callers; c++ {
+			wg.Add(1)
+			go func(c int) {
+				defer wg.Done()
+				tok := fmt.Sprintf("p%d.%d", p, c)
+				<-start
+				log.emit(J{"ev": "call", "ep": "A", "tok": tok})
+				ctx, cancel := context.WithTimeout(context.Background(), 20*time.Second)
+				var out string
+				err := a.Call(ctx, &out, "t_echo", tok, 0, false)
+				cancel()
+				log.emit(J{"ev": "ret", "ep": "A", "tok": tok, "val": out, "err": errText(err)})
+			}(c)
+		}
+		close(start)
+		wg.Wait()
+		log.emit(J{"ev": "end"})
+		p1.Close()
+		p2.Close()
+	}
+	tr.close()
+	ioutil.WriteFile(statusFile, []byte("OK\n"), 0644)
+}
+
 func runRPCStress(args []string) {
 	if len(args) != 7 {
 		fatal("usage: vipsim rpcstress seed callers calls mem|fifo|pipe lazy trace status")
